@@ -183,9 +183,19 @@ class Gen:
         n = r.randint(0, self.p.max_args if max_args is None else max_args)
         used = set()
         out = []
-        for _ in range(n):
-            t = self.any_type(self.p.max_type_depth, tparams, this_ok)
-            out.append(['arg', t, self.fresh(used, ARG_IDS), None])
+        pool = self.__dict__.setdefault('sig_pool', [])
+        if max_args is None and pool and r.random() < 0.2:
+            # reuse an earlier signature (same types and names), defaults re-rolled below: overload-like
+            # families whose members differ only in their defaults
+            self.count('signature_reuse')
+            out = [['arg', a[1], a[2], None] for a in r.choice(pool)]
+            n = len(out)
+        else:
+            for _ in range(n):
+                t = self.any_type(self.p.max_type_depth, tparams, this_ok)
+                out.append(['arg', t, self.fresh(used, ARG_IDS), None])
+            if n and not tparams and not this_ok:
+                pool.append([tuple(a) for a in out])
         if dflt and n and r.random() < self.p.p_default:
             if self.p.matlab_safe or r.random() < 0.8:
                 k = r.randint(1, n)
@@ -278,11 +288,13 @@ class Gen:
             return ('dunder', k, [('arg', self.any_type(1, ctparams, True), self.ident(ARG_IDS), None)])
         return ('dunder', k, [])
 
-    def enum(self):
+    def enum(self, used_names=None):
         r = self.r
         used = set()
         n = r.randint(1, 4)
-        return ('enum', r.choice(['enum', 'enum class', 'enum struct']), self.ident(PLAIN_IDS + ['Kind', 'Color', 'Mode']),
+        name = self.ident(PLAIN_IDS + ['Kind', 'Color', 'Mode']) if used_names is None \
+            else self.fresh(used_names, PLAIN_IDS + ['Kind', 'Color', 'Mode'])
+        return ('enum', r.choice(['enum', 'enum class', 'enum struct']), name,
                 [self.fresh(used, ['A', 'B', 'Red', 'Green', 'Dog', 'Cat', 'x', 'NONE']) for _ in range(n)])
 
     def klass(self, used_names):
@@ -326,7 +338,7 @@ class Gen:
             return ('ns', r.choice(NS_IDS), self.content(depth + 1))
         if x < 0.66:
             self.count('enum')
-            return self.enum()
+            return self.enum(used_names)
         if x < 0.74:
             self.count('variable')
             return ('var', self.any_type(2), self.ident(ARG_IDS + ['kGravity', 'kMax']),
